@@ -1,6 +1,9 @@
 """Shared generators / specification oracle for the incremental-executor properties C33, C34 (and C35's corollary).
 
-A case is {n, deps: per key a list of groups (one Resolve call per group), inputs, par, panic_at, ops}.
+A case is {n, deps: per key a list of groups (one Resolve call per group), inputs, par, panic_at, fail, ops}.
+`fail` = {key: [r, m]}: the query of that key returns a fatal error of its own (an ordinary error: no panic, no cycle),
+together with its value, iff its input % m == r; a query fails with the first fatal error among its own and its
+dependencies' (a failed dependency counts as 0 in the value).
 The oracle below is the *specification*: it is computed from the graph and the history alone (fresh values by
 recursion over the DAG, the set of keys a Run has to execute, the upward closure an Evict has to remove) and
 compared with what the real executor did.  It never looks at the model."""
@@ -19,15 +22,22 @@ TRUSTED_INC = ["hand-written small-step Gallina model of experimental/incrementa
 
 
 POISON = {"evict-with-cleanup-misses-task-created-by-inflight-run", "evict-leaves-dependent-cached", "cancelled-run-result-cached", "pending-task-leaked-by-cancelled-run", "overlapping-run-waits-on-panicked-leader",
-          "run-hangs", "stale-value-cached", "stale-value-returned", "panicking-query-cached"}
+          "run-hangs", "stale-value-cached", "stale-value-returned", "panicking-query-cached", "stale-fatal-status-cached",
+          "stale-fatal-status-returned"}
 
 
 def flat(deps, k):
     return [d for g in deps[k] for d in g]
 
 
-def fresh_values(n, deps, inputs):
-    """value of every key that does not reach a cycle (None otherwise)"""
+def own_fail(fail, inputs, k):
+    f = (fail or {}).get(str(k))
+    return bool(f) and f[1] > 0 and inputs[k] % f[1] == f[0]
+
+
+def fresh(n, deps, inputs, fail=None):
+    """(value, failed) of every key that does not reach a cycle ((None, None) otherwise); failed = the query returns a
+    fatal error: its own (case field `fail`) or the first one among its dependencies; a failed dependency counts as 0"""
     memo, state = {}, {}
 
     def go(k):
@@ -38,20 +48,31 @@ def fresh_values(n, deps, inputs):
         state[k] = 1
         v = inputs[k] % MOD
         bad = False
+        failed = own_fail(fail, inputs, k)
         for j, d in enumerate(flat(deps, k)):
-            dv = go(d)
-            if dv is None:
+            r = go(d)
+            if r is None:
                 bad = True
                 dv = 0
+            else:
+                dv, df = r
+                if df:
+                    failed, dv = True, 0
             v = (v + (2 * j + 3) * (dv % MOD)) % MOD
         state[k] = 2
-        memo[k] = None if bad else v
+        memo[k] = None if bad else (v, failed)
         return memo[k]
     # two passes so that keys visited while their cycle was open are settled
     for k in range(n):
         go(k)
     cyc = reaches_cycle(n, deps)
-    return [None if cyc[k] else memo[k] for k in range(n)]
+    ok = [not cyc[k] and memo[k] is not None for k in range(n)]
+    return [memo[k][0] if ok[k] else None for k in range(n)], [memo[k][1] if ok[k] else None for k in range(n)]
+
+
+def fresh_values(n, deps, inputs, fail=None):
+    """value of every key that does not reach a cycle (None otherwise)"""
+    return fresh(n, deps, inputs, fail)[0]
 
 
 def reach(deps, roots, stop=()):
@@ -185,7 +206,7 @@ def oracle(case, out):
             break
         exec_set = reach(deps, [k for s in sets for k in s], cached) - cached
         P = exec_set & panics
-        fv = fresh_values(n, deps, inputs)
+        fv, ff = fresh(n, deps, inputs, case.get("fail"))
         for r in runs:
             if r.get("escaped_panic"):
                 V("panic-escaped-run", tag + "a panic escaped Run: %s" % r["escaped_panic"])
@@ -237,12 +258,19 @@ def oracle(case, out):
                 elif res["fatal"] == "none":
                     if want_cycle:
                         V("cycle-not-reported", tag + "key %d reaches a dependency cycle but has no cycle error" % k)
+                    elif ff[k]:
+                        V("stale-fatal-status-returned", tag + "key %d: Run returned a success, a fresh computation fails" % k)
                     elif res["v"] != fv[k]:
                         V("stale-value-returned", tag + "key %d: Run returned %d, a fresh computation gives %d" % (k, res["v"], fv[k]))
+                elif res["fatal"] == "fail":
+                    # the fatal error a failing query returned from Execute (Value is unspecified then: not compared here)
+                    if not want_cycle and not ff[k]:
+                        V("stale-fatal-status-returned", tag + "key %d: Run returned the fatal error of a failed query, a fresh "
+                          "computation succeeds" % k)
                 else:
                     if not (overlapping and P):
                         V("cancelled-run-result-cached", tag + "key %d: Run returned a memoized %s error" % (k, res["fatal"]))
-                if not overlapping and res["fatal"] in ("none", "cycle"):
+                if not overlapping and res["fatal"] in ("none", "cycle", "fail"):
                     if res["changed"] != (k in exec_set):
                         V("changed-flag-wrong", tag + "key %d: Changed=%s but the key was %scomputed during this Run"
                           % (k, res["changed"], "" if k in exec_set else "not "))
@@ -258,12 +286,15 @@ def oracle(case, out):
             per = {}
             for c, d, ch, fk in o["obs"]:
                 per.setdefault((c, d), set()).add(ch)
-                if not overlapping and ch != (d in exec_set) and fk == "none":
-                    V("changed-flag-wrong", tag + "query %d saw Changed=%s for dependency %d" % (c, ch, d))
+                # a value or the fatal error of a failed query: either way the memoized result of d (a cycle error is made
+                # up by the waiter that found the cycle and is not a memoized result)
+                if not overlapping and ch != (d in exec_set) and fk in ("none", "fail"):
+                    V("changed-flag-wrong", tag + "query %d saw Changed=%s for dependency %d%s, which was %scomputed during "
+                      "this Run" % (c, ch, d, " (a failed query)" if fk == "fail" else "", "" if d in exec_set else "not "))
             if not overlapping:
                 byd = {}
                 for c, d, ch, fk in o["obs"]:
-                    if fk == "none":
+                    if fk in ("none", "fail"):
                         byd.setdefault(d, set()).add(ch)
                 for d, s in byd.items():
                     if len(s) > 1:
@@ -280,6 +311,9 @@ def oracle(case, out):
                     V("cancelled-run-result-cached", tag + "key %d is memoized with the %s of a cancelled Run" % (t["k"], t["fatal"]))
                 if t["fatal"] == "none" and fv[t["k"]] is not None and t["v"] != fv[t["k"]]:
                     V("stale-value-cached", tag + "key %d is memoized with %d, a fresh computation gives %d" % (t["k"], t["v"], fv[t["k"]]))
+                if t["fatal"] in ("none", "fail") and ff[t["k"]] is not None and (t["fatal"] == "fail") != ff[t["k"]]:
+                    V("stale-fatal-status-cached", tag + "key %d is memoized as a %s, a fresh computation %s"
+                      % (t["k"], "failure" if t["fatal"] == "fail" else "success", "fails" if ff[t["k"]] else "succeeds"))
         if o.get("no_after"):
             # an Evict was waiting for this Run: Keys() and the task map cannot be observed before it strikes
             cached = cached | exec_set
@@ -379,13 +413,15 @@ def random_history(rng, n, nops, overlap=True):
     return ops
 
 
-def mk_case(n, deps, ops, par, inputs=None, panic_at=None, jitter=0, timeout_ms=1500, slow_us=None):
+def mk_case(n, deps, ops, par, inputs=None, panic_at=None, jitter=0, timeout_ms=1500, slow_us=None, fail=None):
     c = {"n": n, "deps": deps, "inputs": inputs if inputs is not None else [10 * (k + 1) + 1 for k in range(n)],
          "par": par, "ops": ops, "jitter": jitter, "timeout_ms": timeout_ms}
     if panic_at:
         c["panic_at"] = {str(k): v for k, v in panic_at.items()}
     if slow_us:
         c["slow_us"] = {str(k): v for k, v in slow_us.items()}
+    if fail:
+        c["fail"] = {str(k): list(v) for k, v in fail.items()}
     return c
 
 
@@ -425,7 +461,7 @@ def coq_case(case, out, after_cancel=False):
             res = []
             if not canc:
                 for k, x in zip(op["keys"], r["results"]):
-                    if x["fatal"] not in ("none", "cycle"):
+                    if x["fatal"] not in ("none", "cycle", "fail"):
                         return ops_term(case, ops)
                     res.append("(%d%%N, %s, %s)" % (2 * x["v"] + (x["fatal"] != "none"), coq_bool(x["changed"]), coq_bool(not rc[k])))
             ka = "None" if ((canc and not after_cancel) or o.get("no_after")) else "(Some %s)" % nl(o["keys"])
@@ -438,9 +474,10 @@ def coq_case(case, out, after_cancel=False):
                 break
             if any(rc[k] for s in op["runs"] for k in s):
                 break
-            if any(x["fatal"] != "none" for r in runs for x in r["results"]):
+            if any(x["fatal"] not in ("none", "fail") for r in runs for x in r["results"]):
                 break
-            res = "[" + "; ".join("[" + ";".join("%d%%N" % (2 * x["v"]) for x in r["results"]) + "]" for r in runs) + "]"
+            res = "[" + "; ".join("[" + ";".join("%d%%N" % (2 * x["v"] + (x["fatal"] != "none")) for x in r["results"]) + "]"
+                                  for r in runs) + "]"
             ops.append("CPar [%s] %s %s" % ("; ".join(nl(s) for s in op["runs"]), res, nl(o["keys"])))
     return ops_term(case, ops)
 
@@ -450,5 +487,6 @@ def ops_term(case, ops):
         return None
     pan = "[" + "; ".join("(%s, %d)" % (k, v) for k, v in sorted(case.get("panic_at", {}).items())) + "]"
     deps = "[" + "; ".join("[" + "; ".join(nl(g) for g in gs) + "]" for gs in case["deps"]) + "]"
-    return ("{| c_n := %d; c_deps := %s; c_panic := %s; c_fix := %s; c_par := %d; c_inputs := %s; c_ops := [%s] |}"
-            % (case["n"], deps, pan, coq_bool(REPAIRED), case["par"], nl(case["inputs"]), "; ".join(ops)))
+    fl = "[" + "; ".join("(%s, (%d, %d))" % (k, v[0], v[1]) for k, v in sorted(case.get("fail", {}).items())) + "]"
+    return ("{| c_n := %d; c_deps := %s; c_panic := %s; c_fail := %s; c_fix := %s; c_par := %d; c_inputs := %s; c_ops := [%s] |}"
+            % (case["n"], deps, pan, fl, coq_bool(REPAIRED), case["par"], nl(case["inputs"]), "; ".join(ops)))
